@@ -147,6 +147,11 @@ def run(ck):
         check_clz(ck, prog, label, meth["check_leading_zeros"])
     pow_complement(ck, prog)
     controls(ck, prog, impls)
+    # the nonce reaches the seed injectively: merge_with_int of every Rescue hasher encodes the whole integer (C11's SEP clause for
+    # merge_with_int; the byte-oriented hashers append the integer's 8 bytes)
+    from . import c11 as _c11
+    ck.rule("SEP", "merge_with_int (nonce absorption, counter expansion) encodes the whole integer: one limb iff value < MODULUS, otherwise value % M and value / M")
+    _c11.sep_rule(ck, prog, items=("merge_with_int",), floor=3)
     # "every drawn element is a valid element": the conversion draw() goes through constructs only values inside the field's
     # representation range (interval analysis over all byte strings; shared with C07's REPR)
     from . import repr_range
